@@ -154,7 +154,12 @@ let () =
           List.map (fun s -> match String.split_on_char ':' s with
               | [o; l] -> (int_of_string o, int_of_string l)
               | _ -> failwith "bad span") (String.split_on_char ',' spans_w) in
-        if V.placement_ok out (List.map (fun (o, l) -> (nat_of_int o, nat_of_int l)) spans) then ok id "+placement"
+        let nspans = List.map (fun (o, l) -> (nat_of_int o, nat_of_int l)) spans in
+        if V.placement_ok out nspans && not (V.placement_ok_without_scripting out nspans) then
+          (* the reading of a user agent without scripting (noscript is an ordinary element, its body markup) *)
+          specfail id ("untrusted_data_outside_text_and_quoted_values_for_a_user_agent_without_scripting"
+                       ^ finding_tag ~clause:"without_scripting" ~text ~parsed nowhere)
+        else if V.placement_ok out nspans then ok id "+placement"
         else begin
           (* name the first offending class for the report *)
           let cls = Array.of_list (V.html_tokenize V.SData out).V.r_classes in
